@@ -1,0 +1,11 @@
+//go:build verif
+
+package iterators
+
+// Contracts for the deductive verifier in /verif (govc). Comment-only: no code is added.
+
+// Abstract contract of a source iterator: Next writes the element it delivers into *t; whatever
+// else it changes is private to the source (assumption: the source's state is separate from its
+// consumer's state).
+//@ iface Iterator.Next
+//@   modifies *t
